@@ -39,11 +39,31 @@ def run_case(c):
 
 
 def main():
+    import os
+    cov = None
+    if os.environ.get('VERIF_COV_FILE'):
+        try:
+            import coverage
+            repo = os.environ.get('ODAK_REPO', '/repo')
+            cov = coverage.Coverage(data_file=os.environ['VERIF_COV_FILE'], config_file=False, include=[os.path.join(repo, 'odak', '*')])
+            cov.start()
+        except Exception:
+            cov = None
     for line in sys.stdin:
         line = line.strip()
         if not line:
             continue
         c = json.loads(line)
+        if c.get('kind') == '__quit__':
+            if cov is not None:
+                try:
+                    cov.stop()
+                    cov.save()
+                except Exception:
+                    pass
+            sys.stdout.write('{}\n')
+            sys.stdout.flush()
+            return
         try:
             r = run_case(c)
         except Exception as e:
